@@ -290,12 +290,9 @@ func c16Exec(store metadata.Store, sc c16Script, tolerateZero bool) (string, c16
 		case "delete":
 			info.deletes++
 			_ = store.DeleteTopic(ctx, op.Topic) // success or not: only keys of this topic become unspecified
-			for _, g := range sc.Groups {
-				for p := int32(0); p < 4; p++ {
-					k := c16Key{g, op.Topic, p}
-					if _, ok := model[k]; ok {
-						model[k] = append(append([]c16Val(nil), model[k]...), c16Val{})
-					}
+			for k := range model {
+				if k.Topic == op.Topic {
+					model[k] = append(append([]c16Val(nil), model[k]...), c16Val{})
 				}
 			}
 		}
@@ -357,13 +354,14 @@ func c16Dedup(in []string) []string {
 }
 
 type c16Gen struct {
-	script     c16Script
-	collide    bool // two distinct generated keys share a naive join of this leg's store
-	anyCollide bool // ... of either store
-	normalize  bool // ... of a join that path-cleans / case-folds / trims the names
-	mode       string
-	excluded   map[string]bool
-	trace      []string
+	script      c16Script
+	collide     bool // two distinct generated keys share a naive join of this leg's store
+	anyCollide  bool // ... of either store
+	normalize   bool // ... of a join that path-cleans / case-folds / trims the names
+	mode        string
+	prefixFetch bool // a never-committed key whose key text is a proper prefix of a committed key's text is fetched
+	excluded    map[string]bool
+	trace       []string
 }
 
 // c16Generate draws a script. join is the naive key join of the store under test; known
@@ -397,7 +395,7 @@ func c16Generate(t *rapid.T, join func(c16Key) string, knownAlias string, etcd b
 		groups = []string{a + ":" + b, a, a + ":" + b + ":" + c, a + ":" + c}
 		topics = append(topics, b+":"+c)
 	case "path":
-		groups = []string{a + "/offsets/" + b, a, a + "/offsets/" + c, a + "/offsets/" + c + "/0"}
+		groups = []string{a + "/offsets/" + b, a, a + "/offsets/" + c, a + "/offsets/" + c + "/" + rapid.SampledFrom([]string{"0", "1", "1/x", "10", "2", "20/"}).Draw(t, "keytail")}
 		topics = append(topics, b+"/offsets/"+c)
 	case "delalias":
 		groups = []string{a + "/offsets/" + c, a + "/offsets/" + c + "/" + b, a, c}
@@ -423,13 +421,21 @@ func c16Generate(t *rapid.T, join func(c16Key) string, knownAlias string, etcd b
 			g.script.Create[tp] = int32(rapid.IntRange(1, 4).Draw(t, "nparts"))
 		}
 	}
+	// partition numbers: families with decimal-prefix relations (1 / 10..19 / 100.., 2 / 20 / 2147483647)
+	// so that one key's text can be a proper prefix of a sibling's key text
+	parts := rapid.SampledFrom([][]int32{
+		{1, 10, 11, 12, 19, 100, 101},
+		{2, 20, 21, 2147483647, 0},
+		{0, 1, 2, 10, 20},
+		{0, 1, 2, 3},
+	}).Draw(t, "partition-family")
 	// key universe and collision classes
 	var keys []c16Key
 	byJoin := map[string]c16Key{}
 	usable := map[c16Key]bool{}
 	for _, gr := range groups {
 		for _, tp := range topics {
-			for p := int32(0); p < 4; p++ {
+			for _, p := range parts {
 				k := c16Key{gr, tp, p}
 				keys = append(keys, k)
 				j := join(k)
@@ -509,15 +515,35 @@ func c16Generate(t *rapid.T, join func(c16Key) string, knownAlias string, etcd b
 		}
 		// pick a group, then 1..3 distinct keys of that group
 		k0 := rapid.SampledFrom(pool).Draw(t, "key")
-		if kind == "fetch" && len(committed) > 0 && rapid.Bool().Draw(t, "fetch-committed") {
-			var ck []c16Key
+		if kind == "fetch" && len(committed) > 0 {
+			var ck, pk []c16Key
 			for _, k := range pool { // pool order is deterministic
 				if committed[k] {
 					ck = append(ck, k)
+					continue
+				}
+				// never committed, but its key text is a proper prefix of a committed key's text
+				for c := range committed {
+					if strings.HasPrefix(c16PathJoin(c), c16PathJoin(k)) || strings.HasPrefix(c16ColonJoin(c), c16ColonJoin(k)) {
+						pk = append(pk, k)
+						break
+					}
 				}
 			}
-			if len(ck) > 0 {
-				k0 = rapid.SampledFrom(ck).Draw(t, "ckey")
+			switch rapid.IntRange(0, 2).Draw(t, "fetch-target") {
+			case 0:
+				if len(pk) > 0 {
+					k0 = rapid.SampledFrom(pk).Draw(t, "pkey")
+				}
+			case 1:
+				if len(ck) > 0 {
+					k0 = rapid.SampledFrom(ck).Draw(t, "ckey")
+				}
+			}
+			for _, k := range pk {
+				if k == k0 {
+					g.prefixFetch = true
+				}
 			}
 		}
 		var mine []c16Key
@@ -573,6 +599,9 @@ func c16Record(st *vfkit.Stats, leg string, g c16Gen, info c16Info) {
 		st.Class("keys-colliding-under-this-store-join")
 	}
 	st.Class("mode-" + g.mode)
+	if g.prefixFetch {
+		st.Class("fetch-of-uncommitted-key-that-prefixes-a-committed-key")
+	}
 	if g.normalize {
 		st.Class("keys-colliding-under-a-normalizing-join")
 	}
